@@ -47,7 +47,9 @@ BagOfInts(str) == IF str = "" THEN <<>> ELSE SplitAt(str, 1, 1, " ")
 JudgeBuffer(e, pre) ==
   LET subj == "buffer." \o e.act.m IN
   IF Crashed(e) THEN V("crash", subj, "C17", e.post.msg)
-  ELSE LET ab == AbsOp(e.act.kind, pre.cap, e.act.m, e.act.args, pre.live)
+  ELSE LET \* a negative position encodes one near usize::MAX (decoded by the harness): beyond every size
+           bargs == IF e.act.m \in {"get", "get_mut", "copy"} /\ e.act.args[1] < 0 THEN <<MaxInt - 4>> ELSE e.act.args
+           ab == AbsOp(e.act.kind, pre.cap, e.act.m, bargs, pre.live)
            retOK == IF e.act.m = "to_string"       \* C17: exactly the live items; the order of the text is extended coverage
                     THEN e.ret.t = "val" /\ IsPerm(BagOfInts(e.ret.v), [i \in 1..Len(pre.live) |-> ToString(pre.live[i])])
                     ELSE RetEq(e.ret, ab.ret)
@@ -55,7 +57,7 @@ JudgeBuffer(e, pre) ==
           THEN V("mismatch", subj, "C17", "differs from the abstract bounded sequence (live items / return value / size <= capacity)")
           ELSE IF ~RetEq(e.ret, ab.ret) THEN V("mismatch", subj, "EXT", "to_string lists the live items in another order than newest first")
           ELSE IF pre.ring.t = "ring" /\ e.post.ring.t = "ring"
-          THEN LET ri == RingOp(e.act.kind, e.act.m, e.act.args, pre.ring) IN
+          THEN LET ri == RingOp(e.act.kind, e.act.m, bargs, pre.ring) IN
                IF [x \in DOMAIN ri.post |-> e.post.ring[x]] = ri.post /\ RetEq(e.ret, ri.ret) /\ RingInv(e.post.ring) /\ Live(e.post.ring) = e.post.live
                THEN Ok(subj)
                ELSE V("mismatch", subj, "EXT", "differs from the ring implementation model (cursors / cells)")
@@ -192,10 +194,11 @@ JudgeGen(e) ==
   LET m == e.act.m
       a == e.act.args
       subj == "gen." \o m
-      own == IF m \in {"random_code", "random_code_with_size", "decompose"} THEN "C12" ELSE "C13"
+      own == IF m \in {"random_code", "random_code_with_size", "decompose", "code_rand_instr"} THEN "C12" ELSE "C13"
   IN IF Crashed(e) THEN V("crash", subj, own, e.post.msg)
   ELSE Expect(
-       CASE m = "random_code" ->
+       \* (CODE.RAND handed the list a[1], with a limit a[2] inside the configured maximum: the generator's answer lands on CODE)
+       CASE m \in {"random_code", "code_rand_instr"} ->
               IF a[2] < 2 THEN RetEq(e.ret, RNone)
               ELSE e.ret.t = "some" /\ Size(e.ret.v) >= 1 /\ Size(e.ret.v) <= a[2] - 1 /\ ValidCode(e.ret.v, a[1])
                    /\ NamesOK(e.ret.v, a[3], a[4])
